@@ -174,12 +174,12 @@ class GitDist(Dist):
         prefix_level = len(Path(prefix).parents)
         return Path(dir_).parents[prefix_level - 1]
 
-    def have_dirty_index(self) -> bool:
-        '''Check whether there are uncommitted changes in git'''
+    def have_dirty_index(self, src_root: str) -> bool:
+        '''Check whether there are uncommitted changes in the git repository of src_root'''
         # Optimistically call update-index, and disregard its return value. It could be read-only,
         # and only the output of diff-index matters.
-        subprocess.call(['git', '-C', self.src_root, 'update-index', '-q', '--refresh'])
-        ret = subprocess.call(['git', '-C', self.src_root, 'diff-index', '--quiet', 'HEAD'])
+        subprocess.call(['git', '-C', src_root, 'update-index', '-q', '--refresh'])
+        ret = subprocess.call(['git', '-C', src_root, 'diff-index', '--quiet', 'HEAD'])
         return ret == 1
 
     def copy_git(self, src: T.Union[str, os.PathLike], distdir: str, revision: str = 'HEAD',
@@ -196,7 +196,7 @@ class GitDist(Dist):
             t.extractall(path=distdir)
 
     def process_git_project(self, src_root: str, distdir: str) -> None:
-        if self.have_dirty_index():
+        if self.have_dirty_index(src_root):
             handle_dirty_opt(msg_uncommitted_changes, self.options.allow_dirty)
         if os.path.exists(distdir):
             windows_proof_rmtree(distdir)
